@@ -303,7 +303,8 @@ def expected_rows(s):
 def run(chk):
     # "prv": check_flags of prv.c regenerated from the source (C13_prv_flags_from_source); "pv": text and tables of the writer layer;
     # "emuloop": the top-level sequencing (emu.c, model.c, recorder.c, pvt.c, prv.c) regenerated from the source (C13_emu_step_from_source ...)
-    units = [u for u in ("prv", "pv", "emuloop") if os.path.exists(os.path.join(common.VERIF, "translate", "units", u + ".py"))]
+    # "pvw": the writer primitives of pcf.c / prf.c / prv.c regenerated from the source (C13_writer_primitives_from_source)
+    units = [u for u in ("prv", "pv", "emuloop", "pvw") if os.path.exists(os.path.join(common.VERIF, "translate", "units", u + ".py"))]
     build, oracle, tables = emucheck.setup(chk, extra_units=units)
     chk.trusted_base += [
         "translate/units/pv.py: PCF header text, palette, label limits, system-channel names and labels, the models' type "
@@ -320,6 +321,16 @@ def run(chk):
             "are translated to Gallina on every run; hand-written prelude coq/Emu/EmuLoopPre.v (the primitives carry the meaning of "
             "PlayerDefs / EmuCoreDefs / BayDefs / PvDefs; connect and finish hooks are parameters; model_probe, model_register, "
             "argument parsing, cfg_generate and emu_stat are not modelled)",
+        ]
+    if "pvw" in units:
+        chk.trusted_base += [
+            "translate/units/pvw.py + translate/units/_stagec.py: pcf_find_type/pcf_add_type/pcf_find_value/pcf_add_value/write_header/"
+            "write_type/write_types/pcf_close, prf_open/prf_add/prf_close, prv.c's write_header/prv_open_file/get_id/find_prv_chan/"
+            "write_line/prv_register are translated to Gallina on every run and proved equal to the PvDefs primitives "
+            "(Proofs/PvWProofs.v); hand-written prelude coq/Emu/PvWPre.v: uthash tables as insertion-ordered lists, calloc as a "
+            "pending object at its future position, snprintf %s truncation, the fprintf subset (%s, %d/%i with -, 0, width, l/ll) "
+            "parsed by the translator and rendered with PvDefs.dec/pad, FILEs as byte lists, the two loop combinators, write_colors, "
+            "fopen/calloc/bay_add_cb outcomes from the environment",
         ]
     pv_oracle = None
     try:
